@@ -703,6 +703,11 @@ pub fn render(p: &Program, lay: &Layout, rng: &mut Rng) -> Rendered {
                             // after the mnemonic
                             // (a colon is white space in lace's grammar wherever it stands, also glued to a mnemonic)
                             text.push_str(rng.s(&[" ", "\t", "  ", " ", ", ", " ", ": ", ":"]));
+                        } else if rng.chance(1, 14) {
+                            // a line break is white space like any other: the statement goes on on the next line
+                            text.push_str(rng.s(&["", ",", " ", ", "]));
+                            text.push_str(nl);
+                            text.push_str(rng.s(&["", "  ", "\t", "        "]));
                         } else {
                             text.push_str(rng.s(SEPS));
                         }
